@@ -154,6 +154,11 @@ class Check:
             )
         replay_dir = VERIF / "replay"
         replay_dir.mkdir(exist_ok=True)
+        for old in replay_dir.glob(f"{self.pid}-*.json"):
+            try:
+                old.unlink()
+            except OSError:
+                pass
         for i, v in enumerate(new_v):
             path = replay_dir / f"{self.pid}-{i}.json"
             path.write_text(json.dumps(v, indent=1, default=str))
